@@ -248,6 +248,8 @@ def check_value(name, a, val, present, macros, fail):
         if p >= 1.0:
             fail("attr-missing", f"attribute {name} (probability 1.0) is absent")
         return
+    if p <= 0.0 and not (a.get("none_value") is not None and val == a["none_value"]):
+        fail("attr-p0", f"attribute {name} (probability 0.0) is present with a generated value")
     if val is None:
         fail("attr-none", f"skipped attribute {name} is present with value None")
     if "range" in a:
